@@ -373,6 +373,15 @@ func runC04(ctx *core.Ctx) {
 				}
 			}
 			ctx.Check(okRoot, "I5", "testscript.RunT$closure#remove-root", cf.Pos(), "the shared temporary root is removed exactly by the subtest whose atomic decrement of the reference count reaches zero")
+			// the decrement comes after this script's own directory is gone: otherwise the subtest that
+			// reaches zero may try to remove the root while another one is still deleting its tree
+			okSeq := len(rm) == 1
+			for _, c := range cg.Calls("sync/atomic.AddInt32") {
+				if len(rm) == 1 && !cg.Dominates(rm[0], c) {
+					okSeq = false
+				}
+			}
+			ctx.Check(okSeq, "I5", "testscript.RunT$closure#decrement-after-removal", cf.Pos(), "the reference count is decremented only after the script's own work directory was removed (so 'last one out' really means every directory is gone)")
 		}
 	}
 	// ---- I6
@@ -537,6 +546,25 @@ func runC04(ctx *core.Ctx) {
 				}
 			}
 			ctx.Check(ok && okIntr, "I6", "testscript.cmdSkip#wait-first", skip.Pos(), "skip interrupts and waits for background commands before marking the test skipped")
+		}
+	}
+	// ---- I6b: the background list is given up only when nothing can fail any more
+	ctx.Rule("I6b", "background bookkeeping: TestScript.background is cleared or shortened only at points from which no Fatalf is reachable in that function; if a wait fails half-way the remaining commands must still be listed for the end-of-run handler to interrupt and reap", 2)
+	for _, f := range tsFuncs(p) {
+		g := graph(p, f)
+		k := 0
+		for _, a := range fieldAccesses(g, tsPkg, "TestScript", "background") {
+			st, ok := a.At.(*ssa.Store)
+			if !ok || !a.Write {
+				continue
+			}
+			// growth (append) is not a release
+			if c, ok := st.Val.(*ssa.Call); ok && ssax.CalleeName(&c.Call) == "builtin.append" {
+				continue
+			}
+			k++
+			hit, _ := g.ReachableWithout(ssax.PointAfter(st), func(i ssa.Instruction) bool { return ssax.IsCallTo(i, tsFatalf, tsCheck) }, nil)
+			ctx.Check(hit == nil, "I6b", shortFn(f)+"#release"+itoa(k), st.Pos(), "the background list is released only where no failure can follow (otherwise processes still running are forgotten and outlive the run)")
 		}
 	}
 	// ---- I7
